@@ -158,11 +158,6 @@ func Compare(op Op, got, want Resp) *Diff {
 		}
 		return nil
 	case KBatchGet:
-		for t, keys := range got.BGUnproc {
-			if len(keys) > 0 {
-				return &Diff{Kind: op.K + "|unprocessed-keys", Detail: fmt.Sprintf("table %s: %d keys reported unprocessed", t, len(keys))}
-			}
-		}
 		for t, items := range want.BGResp {
 			if !sameMultiset(got.BGResp[t], items) {
 				return &Diff{Kind: op.K + "|responses", Detail: fmt.Sprintf("table %s: want %v got %v", t, multiset(items), multiset(got.BGResp[t]))}
@@ -171,6 +166,11 @@ func Compare(op Op, got, want Resp) *Diff {
 		for t, items := range got.BGResp {
 			if _, ok := want.BGResp[t]; !ok && len(items) > 0 {
 				return &Diff{Kind: op.K + "|responses", Detail: "unexpected table " + t}
+			}
+		}
+		for t, keys := range got.BGUnproc {
+			if len(keys) > 0 {
+				return &Diff{Kind: op.K + "|unprocessed-keys", Detail: fmt.Sprintf("table %s: %d keys reported unprocessed", t, len(keys))}
 			}
 		}
 		return nil
